@@ -51,7 +51,7 @@ def san_env(tmpdir, quiet):
     lp = "/dev/null" if quiet else os.path.join(tmpdir, "san")
     env["ASAN_OPTIONS"] = ASAN_BASE + ":log_path=" + lp
     env["UBSAN_OPTIONS"] = UBSAN_BASE + ":log_path=" + lp
-    env["TSAN_OPTIONS"] = "halt_on_error=0:report_signal_unsafe=0"
+    env["TSAN_OPTIONS"] = "halt_on_error=0:report_signal_unsafe=0:suppressions=" + os.path.join(VERIF, "harness", "tsan.supp") + ":log_path=" + lp
     env.pop("RC_PARAMS", None)
     return env
 
